@@ -78,7 +78,17 @@ impl UndoOperation for UndoSetChar {
     }
 
     fn undo(&mut self, edit_state: &mut EditState) -> EngineResult<()> {
-        edit_state.buffer.layers[self.layer].set_char(self.pos, self.old);
+        // The cell is written directly: the guards of Layer::set_char depend on the content of the cell (an alpha locked
+        // layer refuses a write over an invisible cell), so the way back can be refused where the edit was not.
+        // Where the edit itself was refused the cell still holds `old`.
+        let layer = &mut edit_state.buffer.layers[self.layer];
+        let pos = self.pos;
+        if pos.x >= 0 && pos.y >= 0 && pos.x < layer.get_width() && pos.y < layer.get_height() {
+            if layer.lines.len() <= pos.y as usize {
+                layer.lines.resize(pos.y as usize + 1, Line::default());
+            }
+            layer.lines[pos.y as usize].set_char(pos.x, self.old);
+        }
         Ok(())
     }
 
